@@ -43,6 +43,7 @@ type qcase struct {
 	Outcomes            map[string]int `json:"outcomes"`
 	Order               []string       `json:"release_priority"`
 	Actions             []string       `json:"actions"` // rel | tick | cancel
+	CanceledErrs        bool           `json:"failures_wrap_context_canceled"`
 }
 
 func (q qcase) zoneMode() bool { return q.ZoneAware || q.MaxUnavailableZones > 0 }
@@ -51,9 +52,22 @@ type termErr struct{ id string }
 
 func (e termErr) Error() string { return "terminal error from " + e.id }
 
-type failErr struct{ id string }
+// failErr is what a failing call returns; in a third of the cases it wraps context.Canceled although nobody
+// cancelled anything (a downstream call gave up on its own), which must not change any decision.
+type failErr struct {
+	id       string
+	canceled bool
+}
 
 func (e failErr) Error() string { return "failure from " + e.id }
+func (e failErr) Unwrap() error {
+	if e.canceled {
+		return context.Canceled
+	}
+	return nil
+}
+
+func (q qcase) fail(id string) failErr { return failErr{id, q.CanceledErrs} }
 
 var errCallerGaveUp = errors.New("caller gave up")
 
@@ -185,7 +199,7 @@ func runQuorum(t *testing.T, run *vt.Run, c vt.CaseID, q qcase) {
 		<-cs.gate
 		switch q.Outcomes[d.Id] {
 		case oFail:
-			return "", failErr{d.Id}
+			return "", q.fail(d.Id)
 		case oTerminal:
 			return "", termErr{d.Id}
 		}
@@ -462,7 +476,7 @@ func runQuorum(t *testing.T, run *vt.Run, c vt.CaseID, q qcase) {
 			var tip error
 			switch q.Outcomes[cs.id] {
 			case oFail:
-				tip = failErr{cs.id}
+				tip = q.fail(cs.id)
 			case oTerminal:
 				tip = termErr{cs.id}
 			}
@@ -576,6 +590,7 @@ func randomConfig(rng *rand.Rand) qcase {
 	}
 	q.TerminalPred = rng.IntN(4) == 0
 	q.ReplicaCount = rng.IntN(4) == 0
+	q.CanceledErrs = rng.IntN(3) == 0
 	return q
 }
 
@@ -757,7 +772,7 @@ func runMulti(t *testing.T, run *vt.Run, c vt.CaseID, rng *rand.Rand) {
 		<-mc.gate
 		if outcome[d.Id] != oOK {
 			cancel(errors.New("done with error")) // the API requires f to call cancel once done
-			return "", failErr{d.Id}
+			return "", failErr{id: d.Id}
 		}
 		return "res-" + d.Id, nil
 	}
@@ -990,7 +1005,7 @@ func runLegacyDo(t *testing.T, run *vt.Run, c vt.CaseID, rng *rand.Rand) {
 			mu.Unlock()
 			<-l.gate
 			if q.Outcomes[d.Id] != oOK {
-				return nil, failErr{d.Id}
+				return nil, failErr{id: d.Id}
 			}
 			return "res-" + d.Id, nil
 		})
@@ -1169,7 +1184,7 @@ func concurrentCase(t *testing.T, run *vt.Run, c vt.CaseID, q qcase, delays map[
 				finished[d.Id] = true
 				mu.Unlock()
 				if q.Outcomes[d.Id] != oOK {
-					return "", failErr{d.Id}
+					return "", q.fail(d.Id)
 				}
 				return "res-" + d.Id, nil
 			}
